@@ -17,10 +17,15 @@ Local Open Scope Z_scope.
 Local Open Scope bool_scope.
 
 (* ------------------------------------------------------------------ (A) Block1 server table *)
-Record blk_req := { rq_rtag : option Z; rq_arr : blk_arr }.
+(* a request as the lookup sees it: the resource it is for, its Request-Tag, the block *)
+Record blk_req := { rq_res : Z; rq_rtag : option Z; rq_arr : blk_arr }.
 
-(* session->lg_srcv for one resource: (Request-Tag, state), newest first *)
-Definition blk_srv_tab := list (option Z * blk_rcv).
+(* the key of an lg_srcv: (resource, Request-Tag) *)
+Definition blk_key := (Z * option Z)%type.
+Definition rq_key (r : blk_req) : blk_key := (rq_res r, rq_rtag r).
+
+(* session->lg_srcv: (key, state), newest first *)
+Definition blk_srv_tab := list (blk_key * blk_rcv).
 
 (* "if (rtag_opt || lg_srcv->rtag_set == 1) { both set and equal, else continue }" *)
 Definition blk_rtag_match (a b : option Z) : bool :=
@@ -29,47 +34,50 @@ Definition blk_rtag_match (a b : option Z) : bool :=
   | Some x, Some y => x =? y
   | _, _ => false
   end.
+(* ... "if (resource == lg_srcv->resource) break;" *)
+Definition blk_key_match (a b : blk_key) : bool :=
+  blk_rtag_match (snd a) (snd b) && (fst a =? fst b).
 
-Fixpoint blk_tab_find (t : blk_srv_tab) (rt : option Z) : option blk_rcv :=
+Fixpoint blk_tab_find (t : blk_srv_tab) (rt : blk_key) : option blk_rcv :=
   match t with
   | [] => None
-  | (k, s) :: t' => if blk_rtag_match rt k then Some s else blk_tab_find t' rt
+  | (k, s) :: t' => if blk_key_match rt k then Some s else blk_tab_find t' rt
   end.
 
-Fixpoint blk_tab_remove (t : blk_srv_tab) (rt : option Z) : blk_srv_tab :=
+Fixpoint blk_tab_remove (t : blk_srv_tab) (rt : blk_key) : blk_srv_tab :=
   match t with
   | [] => []
-  | (k, s) :: t' => if blk_rtag_match rt k then t' else (k, s) :: blk_tab_remove t' rt
+  | (k, s) :: t' => if blk_key_match rt k then t' else (k, s) :: blk_tab_remove t' rt
   end.
 
-Fixpoint blk_tab_replace (t : blk_srv_tab) (rt : option Z) (s' : blk_rcv) : blk_srv_tab :=
+Fixpoint blk_tab_replace (t : blk_srv_tab) (rt : blk_key) (s' : blk_rcv) : blk_srv_tab :=
   match t with
   | [] => []
-  | (k, s) :: t' => if blk_rtag_match rt k then (k, s') :: t'
+  | (k, s) :: t' => if blk_key_match rt k then (k, s') :: t'
                     else (k, s) :: blk_tab_replace t' rt s'
   end.
 
 Definition blk_srv_recv (junk : Z -> Z) (maxszx : Z) (t : blk_srv_tab) (r : blk_req)
   : blk_srv_tab * blk_out :=
-  let cur := blk_tab_find t (rq_rtag r) in
+  let cur := blk_tab_find t (rq_key r) in
   let '(st', o) := blk_srv_step junk maxszx cur (rq_arr r) in
   match o with
   | BoPass | BoReject => (t, o)                       (* decided before the lookup *)
   | _ =>
       match cur, st' with
       | None, None => (t, o)                           (* created and released at once *)
-      | None, Some s => ((rq_rtag r, s) :: t, o)       (* LL_PREPEND *)
-      | Some _, None => (blk_tab_remove t (rq_rtag r), o)
-      | Some _, Some s => (blk_tab_replace t (rq_rtag r) s, o)
+      | None, Some s => ((rq_key r, s) :: t, o)       (* LL_PREPEND *)
+      | Some _, None => (blk_tab_remove t (rq_key r), o)
+      | Some _, Some s => (blk_tab_replace t (rq_key r) s, o)
       end
   end.
 
 Fixpoint blk_srv_recv_run (junk : Z -> Z) (maxszx : Z) (t : blk_srv_tab) (l : list blk_req)
-  : list (option Z * blk_out) :=
+  : list (blk_key * blk_out) :=
   match l with
   | [] => []
   | r :: l' => let '(t', o) := blk_srv_recv junk maxszx t r in
-               (rq_rtag r, o) :: blk_srv_recv_run junk maxszx t' l'
+               (rq_key r, o) :: blk_srv_recv_run junk maxszx t' l'
   end.
 
 (* ------------------------------------------------------------------ (B) Block2 client, ETag *)
@@ -178,4 +186,33 @@ Fixpoint blk_b2_loop (fuel : nat) (junk : Z -> Z) (body : bytes) (szx : Z) (size
                       else [o]
       | _ => [o]
       end
+  end.
+
+(* ------------------------------------------------------------------ (E) expiry timers *)
+(* coap_block_check_lg_xmit_timeouts / coap_block_check_lg_crcv_timeouts, client side: the
+   transfer state carries the time of the last progress (lg_xmit->last_sent is set when the next
+   Block1 request is sent; lg_crcv->last_used when a new Block2 block is accepted - the latter
+   since /repo commit b2162dc) and is deleted by the periodic check when
+   last + MAX_TRANSMIT_WAIT <= now. *)
+Inductive blk_tev :=
+| TvProgress (t : Z)      (* a block was sent / accepted at time t *)
+| TvCheck (t : Z).        (* the timeout function ran at time t *)
+
+Definition blk_tev_time (e : blk_tev) : Z := match e with TvProgress t | TvCheck t => t end.
+
+(* (alive, last) after the events; a deleted state stays deleted *)
+Fixpoint blk_timed_run (wait : Z) (alive : bool) (last : Z) (l : list blk_tev) : bool * Z :=
+  match l with
+  | [] => (alive, last)
+  | TvProgress t :: l' => blk_timed_run wait alive (if alive then t else last) l'
+  | TvCheck t :: l' => blk_timed_run wait (alive && negb (last + wait <=? t)) last l'
+  end.
+
+(* the same without the refresh (what the server side does for lg_srcv and its lg_xmit, and
+   what the client did for lg_crcv before b2162dc): only the creation time counts *)
+Fixpoint blk_timed_run_norefresh (wait : Z) (alive : bool) (last : Z) (l : list blk_tev) : bool * Z :=
+  match l with
+  | [] => (alive, last)
+  | TvProgress t :: l' => blk_timed_run_norefresh wait alive last l'
+  | TvCheck t :: l' => blk_timed_run_norefresh wait (alive && negb (last + wait <=? t)) last l'
   end.
